@@ -15,7 +15,7 @@ TAG_PROPERTY = {
     "mon.balanced": "C03", "mon.exited-all": "C03", "badThis": "C03", "badOrigin": "C03",
     "mon.idle.req": "C02", "mon.guards-first": "C04", "mon.veto.act": "C04", "mon.veto.res": "C04", "mon.veto.life": "C04",
     "ev.guard": "C04", "ev.guard.pending": "C04", "q": "C04", "req": "C04", "rem": "C04", "oreq": "C04",
-    "ev.traverse": "C05", "mon.reach": "C05",
+    "ev.traverse": "C05", "mon.reach": "C05", "mon.consume": "C05",
     "ev.plan": "C06", "plans": "C06", "pex": "C06", "succ": "C06", "fail": "C06", "tasks": "C06", "hst": "C06", "sst": "C06",
     "plog": "C07", "mon.plan.iter": "C07", "mon.plan.chain": "C07", "mon.plan.disjoint": "C07", "mon.plan.count": "C07", "mon.plan.free": "C07",
     "prev": "C09", "tt": "C09", "last": "C09",
@@ -24,7 +24,7 @@ TAG_PROPERTY = {
     "prev.payload": "C14", "ev.guard.payload": "C14", "ev.life.payload": "C14",
     "mon.report": "C16", "strA": "C16", "hist": "C16", "lg": "C16",
     "log.methods": "C16", "log.requests": "C16", "log.statuses": "C16", "log.resolutions": "C16", "log.order": "C16",
-    "draws": "C12",
+    "draws": "C12", "mon.random.count": "C12", "mon.random.rank": "C12", "mon.random.zero": "C12", "mon.random.ids": "C12",
     "asserts": "C11", "allocs": "C11",
     "buf": "C08", "mon.load.act": "C08", "mon.load.res": "C08", "mon.load.exit": "C08", "mon.load.enter": "C08",
     "ret": "C09", "mon.replay.act": "C09", "mon.replay.res": "C09",
@@ -33,10 +33,10 @@ CONFIG_TAGS = {"act", "isA", "res"}
 UNATTRIBUTED = {"ev.life", "ev.report", "ev.all"}
 
 TIERS = {
-    "quick": dict(fixtures=["min", "comp", "ortho", "strat", "auto", "peers", "util", "plancap", "bare"], records=900, chunks=3,
+    "quick": dict(fixtures=["min", "comp", "ortho", "strat", "auto", "peers", "util", "plancap", "bare", "floaty"], records=900, chunks=3,
                   variants=["plain", "asan", "assert"], extra_variant_fixtures=["min", "ortho", "auto"],
                   mc=["min", "comp", "util"], systematic={"auto": 2, "ortho": 1}),
-    "thorough": dict(fixtures=["min", "comp", "ortho", "strat", "auto", "peers", "oroot", "wide", "plan", "selpeers", "util", "plancap", "bare"],
+    "thorough": dict(fixtures=["min", "comp", "ortho", "strat", "auto", "peers", "oroot", "wide", "plan", "selpeers", "util", "plancap", "bare", "floaty"],
                      records=12000, chunks=12, variants=["plain", "asan", "assert", "dev", "plain11"], mc=["min", "comp", "ortho", "oroot", "util", "peers"],
                      systematic={"min": 12, "comp": 10, "ortho": 8, "strat": 6, "auto": 10, "peers": 6, "oroot": 8, "plan": 6}),
 }
